@@ -1,8 +1,9 @@
 package gen
 
 import (
+	"fmt"
 	"math/rand"
-	"strings"
+	"unicode"
 )
 
 // Profile restricts and biases the grammar for one property.
@@ -512,8 +513,11 @@ func (g *G) Random(env Env, maintainOrder bool) *Pattern {
 // Letter pools.
 var (
 	// letters whose case-fold orbit is a plain upper/lower pair
-	PairLower = []rune("abcdefghijlmnopqrtuvwxyz" + "éèüñ" + "αβγδ" + "джбя")
-	PairUpper = []rune("ABCDEFGHIJLMNOPQRTUVWXYZ" + "ÉÈÜÑ" + "ΑΒΓΔ" + "ДЖБЯ")
+	// (the last groups: Latin Extended-A, Armenian, fullwidth, and cased runes that are not
+	// in Ll/Lu - circled letters (So), Roman numerals (Nl), Greek with title-case partners (Lt) -
+	// and Deseret from the supplementary planes)
+	PairLower = []rune("abcdefghijlmnopqrtuvwxyz" + "éèüñ" + "αβγδ" + "джбя" + "\u0101\u0103" + "\u0561\u0562" + "\uff41\uff5a" + "\u24d0\u24e9" + "\u2170\u2174" + "\u1f80\u1f81" + "\U00010428\U00010429")
+	PairUpper = []rune("ABCDEFGHIJLMNOPQRTUVWXYZ" + "ÉÈÜÑ" + "ΑΒΓΔ" + "ДЖБЯ" + "\u0100\u0102" + "\u0531\u0532" + "\uff21\uff3a" + "\u24b6\u24cf" + "\u2160\u2164" + "\u1f88\u1f89" + "\U00010400\U00010401")
 )
 
 // pairSegment numbers the runs of simple-pair letters (same script, same case);
@@ -563,8 +567,9 @@ func init() {
 		panic("pair pools differ in length")
 	}
 	for i := range PairLower {
-		if strings.ToUpper(string(PairLower[i])) != string(PairUpper[i]) {
-			panic("pair pools are not aligned")
+		lo, up := PairLower[i], PairUpper[i]
+		if unicode.ToUpper(lo) != up || unicode.ToLower(up) != lo {
+			panic(fmt.Sprintf("pair pools: %U / %U are not each other's case partner", lo, up))
 		}
 	}
 }
